@@ -2,6 +2,7 @@ import LassoProofs.C06
 import LassoProofs.Lemmas.Grow
 import LassoProofs.C12
 import LassoProofs.Lemmas.Config
+import LassoProofs.Lemmas.Release
 /-
   C04 — memory safety: no history of safe calls corrupts, leaks or escapes the arena.
 
@@ -10,9 +11,15 @@ import LassoProofs.Lemmas.Config
   `unreachable!`s) is modelled as a checked one that yields a fault when its unstated precondition is
   false.  The theorems say: in every reachable state the layout facts hold, and no operation faults.
 
-  Partial: that every block is released exactly once when the owners are gone (`Drop`) is not
-  modelled; it is checked on the real code by the counting allocator of the harness (net allocated
-  bytes return to the baseline over every case) and by the ASan/Miri tiers.
+  Release (`Drop`): the last section.  The hand-written list walk of the concurrent arena is interpreted
+  from its regenerated statements and proved, for every list, to free each node once with its own layout
+  and never to touch a freed node; the single-threaded block frees its own pointer with the layout it was
+  allocated with; no other code allocates, frees or takes a value out of the drop discipline; blocks are
+  held by value along `Rodeo/ThreadedRodeo/Reader/Resolver -> arena -> blocks`; and in the model no
+  operation gives a block up before the owner is dropped.  That dropping a `Vec`, an enum or a struct
+  drops each element / field exactly once is Rust's drop glue (trusted); on the real code the counting
+  allocator of the harness (net allocated bytes return to the baseline over every case) and the Miri tier
+  stay in place as the implementation-side oracle.
 -/
 namespace Lasso.C04
 open Lasso Lasso.C02
@@ -118,6 +125,114 @@ theorem growth_logic_is_source :
       (Grow.eval (a.env s) Extracted.lockfreeGrow).map (a.applyOutcome s) = some (a.grow s)) ∧
     Extracted.arenaAllocateIsCheckThenAdd = true :=
   ⟨arena_store_is_source_tree, larena_grow_is_source_tree, arena_allocate_shape⟩
+
+/-! ### Release: every block is handed back exactly once, when the owner goes -/
+
+/-- Source side.  The only allocator calls outside tests and hooks are the two `alloc`s of the block constructors
+and the two `dealloc`s of the `Drop` impls; nothing takes a value out of the drop discipline (`forget`, `leak`,
+`into_raw`, `from_raw`, `ManuallyDrop`).  `impl Drop for Bucket` frees the block's own pointer, once,
+unconditionally, with the very layout expression of `Bucket::with_capacity`; the concurrent block is allocated and
+freed with `AtomicBucket::layout(capacity)`. -/
+theorem release_sites_are_source :
+    Extracted.memSites =
+      [ { file := "arenas/atomic_bucket.rs", func := "AtomicBucket::with_capacity", kind := .alloc "alloc" },
+        { file := "arenas/atomic_bucket.rs", func := "AtomicBucketList::drop", kind := .dealloc "dealloc" },
+        { file := "arenas/bucket.rs", func := "Bucket::drop", kind := .dealloc "dealloc" },
+        { file := "arenas/bucket.rs", func := "Bucket::with_capacity", kind := .alloc "alloc" } ] ∧
+    Extracted.bucketRelease.allocLayout = Extracted.bucketRelease.releaseLayout ∧
+    Extracted.bucketRelease.pointerIsOwn = true ∧ Extracted.bucketRelease.deallocCalls = 1 ∧
+    Extracted.bucketRelease.conditional = false ∧
+    Extracted.atomicAllocLayout = Extracted.atomicReleaseLayout := by decide
+
+/-- Field types of a struct, regenerated from the source. -/
+def fields (n : Source.TCon) : List Source.TyE := ((Extracted.structDefs.filter (·.name == n)).map (·.fields)).flatten
+
+/-- The type `C` itself: held by value, not behind a reference, pointer or counter. -/
+def isPlain (c : Source.TCon) : Source.TyE → Bool
+  | .app c' [] => c' == c
+  | _ => false
+
+def isVecOf (c : Source.TCon) : Source.TyE → Bool
+  | .app .vec [t] => isPlain c t
+  | _ => false
+
+/-- Blocks are held by value all the way down (no reference counting, no raw sharing): the interners and the
+views own an arena, the arena of a view is one of the two arenas, the single-threaded arena owns a vector of
+blocks and the concurrent one the list.  So dropping the last owner runs exactly one of the two releases below. -/
+theorem blocks_are_owned_by_value :
+    (fields .rodeo).any (isPlain .arena) = true ∧ (fields .threadedRodeo).any (isPlain .lockfreeArena) = true ∧
+    (fields .reader).any (isPlain .anyArena) = true ∧ (fields .resolver).any (isPlain .anyArena) = true ∧
+    ((fields .anyArena).length = 2 ∧ (fields .anyArena).any (isPlain .arena) = true ∧
+      (fields .anyArena).any (isPlain .lockfreeArena) = true) ∧
+    (fields .arena).any (isVecOf .bucket) = true ∧
+    (fields .lockfreeArena).any (isPlain .atomicBucketList) = true := by decide
+
+/-- The hand-written walk of `impl Drop for AtomicBucketList`, interpreted from its regenerated statements on a
+list of **every** length and with any capacities: it terminates, frees node 0, 1, .. n-1 - each exactly once,
+each with the layout of its own capacity, each only after its `next` and `capacity` fields were read - and
+nothing else; on the model's arena that is exactly `LArena.release`. -/
+theorem list_walk_releases_every_block_once :
+    (∀ caps : List Nat, runListDrop Extracted.listDropEffects caps = some (List.range caps.length)) ∧
+    (∀ a : LArena, a.releaseBy Extracted.listDropEffects = some a.release) :=
+  walkAccepted_spec (by decide)
+
+/-- A walk that frees a node before reading its `next` field is rejected (the interpreter is not vacuous). -/
+example : runListDrop [.loadHead, .whileHeadNonNull, .saveCurrent, .readCapacity .current, .layoutOfCapacity,
+    .dealloc .current true, .advance .head, .loopEnd] [8, 16] = none := by decide
+example : runListDrop Extracted.listDropEffects [8, 16, 4] = some [0, 1, 2] := by decide
+
+/-- Single-threaded interner: whatever happened before and whatever happens afterwards (growth, `clear`, limit
+changes, failed calls), every block the interner ever held is among the blocks released when it is finally
+dropped - with the capacity it was allocated with - and no block is released twice. -/
+theorem rodeo_blocks_released_exactly_once {env : Env} {r : Rodeo} (h : RodeoReach env r) (later : List ROp)
+    (hw : ∀ op ∈ later, ROp.wellFormed env op) :
+    (∀ x ∈ r.arena.release, x ∈ (r.run env later).arena.release) ∧
+    ((r.run env later).arena.release.map (·.id)).Nodup := by
+  constructor
+  · intro x hx
+    obtain ⟨b, hb, rfl⟩ := Arena.mem_release.mp hx
+    obtain ⟨b', hb', e⟩ := Rodeo.run_keeps_blocks env r later b hb
+    exact Arena.mem_release.mpr ⟨b', hb', e⟩
+  · exact Arena.release_ids_nodup (Rodeo.run_inv (rodeo_reach_inv h) later hw).wf
+
+/-- Concurrent interner (one-thread semantics; the racing allocation paths are C05's `ids` invariant). -/
+theorem threaded_blocks_released_exactly_once {env : Env} {t : Threaded} (h : ThreadedReach env t) (later : List TOp)
+    (hw : ∀ op ∈ later, TOp.wellFormed env op) :
+    (∀ x ∈ t.arena.release, x ∈ (t.run env later).arena.release) ∧
+    ((t.run env later).arena.release.map (·.id)).Nodup := by
+  constructor
+  · intro x hx
+    simp only [LArena.release, List.mem_map] at hx ⊢
+    obtain ⟨b, hb, rfl⟩ := hx
+    obtain ⟨b', hb', e⟩ := Threaded.run_keeps_blocks env t later b hb
+    exact ⟨b', hb', e⟩
+  · exact LArena.release_ids_nodup (Threaded.run_inv_keeps (threaded_reach_inv h) later hw).1.wf
+
+/-- The views take the arena over as it is: the blocks released when the last view goes are those of the
+interner it came from. -/
+theorem views_release_their_sources_blocks (env : Env) (r : Rodeo) (t : Threaded) :
+    r.intoReader.arena.release = r.arena.release ∧ r.intoResolver.arena.release = r.arena.release ∧
+    r.intoReader.intoResolver.arena.release = r.arena.release ∧
+    (∀ rd, t.intoReader env = .ok rd → rd.arena.release = t.arena.release) ∧
+    (∀ rs, t.intoResolver = .ok rs → rs.arena.release = t.arena.release) := by
+  refine ⟨rfl, rfl, rfl, ?_, ?_⟩
+  · intro rd h
+    unfold Threaded.intoReader at h
+    repeat' split at h
+    all_goals first
+      | (simp at h; done)
+      | (simp only [Out.ok.injEq] at h; subst h; rfl)
+  · intro rs h
+    unfold Threaded.intoResolver at h
+    repeat' split at h
+    all_goals first
+      | (simp at h; done)
+      | (simp only [Out.ok.injEq] at h; subst h; rfl)
+
+/-- Non-vacuity: a grown arena, three blocks, all of them released. -/
+example : (match (Arena.new 2 100).store [1, 2, 3] with
+    | .ok (a, _) => a.release.map (·.cap)
+    | _ => []) = [2, 4] := by decide
 
 /-- The code this file's theorems are about is the same under every feature configuration: the regenerated
 census of conditional compilation contains import blocks, whole serde impls, optional-dependency impls and
